@@ -52,9 +52,14 @@ func (_ dimensionSetter) UpdateProperties(po tabular.PropertyOwner) error {
 	}
 	linesWidths := make([]decoration.WidthString, nLines)
 	for i, l := range lines {
+		w := length.StringCells(l)
+		if len(lines) == 1 {
+			// a single-line item which declares its own display width is laid out as that wide
+			w = dims.cellWidth
+		}
 		linesWidths[i] = decoration.WidthString{
 			S: l,
-			W: length.StringCells(l),
+			W: w,
 		}
 	}
 
